@@ -80,4 +80,32 @@ Proof.
   split; [congruence|]. split; [exact E4|]. exists nick, u. split; [exact Hn|]. split; [exact Hu|]. rewrite E3. exact Sp.
 Qed.
 
+(* KILL and DIE from a connection without operator status, as whole steps: the one privilege error to the sender, nothing to
+   anybody else, nobody closed, the state unchanged *)
+Theorem kill_refused_step w i l msg target comment c nick u w' o cl : Inv w -> step cfg verify w i (EvLine l) = Ok (w', o, cl) ->
+  conns w !! i = Some c -> c_auth c = true -> c_nick c = Some nick -> users (sh w) !! nick = Some u -> um_oper (u_modes u) = false ->
+  tokenize l = inl msg -> command_of_message msg = inl (KILL target comment) ->
+  sh w' = sh w /\ conns w' = conns w /\ cl = [] /\ o = [(i, srv cfg (err_noprivileges (client_name c)))].
+Proof.
+  intros I H Hc A Hn Hu Ho Ht Hcmd.
+  assert (process_line cfg verify i (sh w) c l = hr (sh w) c [(i, srv cfg (err_noprivileges (client_name c)))]) as El.
+  { unfold process_line. rewrite Ht, Hcmd, A. cbn. rewrite (kill_spec cfg i (sh w) c nick u target comment Hn Hu), Ho. reflexivity. }
+  unfold hr in El.
+  destruct (plain_line_step_out w i l c _ w' o cl I H Hc El eq_refl (keeps_refl _)) as [E1 [E2 [E3 E4]]]. cbn in *.
+  split; [exact E1|]. split; [rewrite E2; apply insert_id; exact Hc|]. split; [exact E4|exact E3].
+Qed.
+
+Theorem die_refused_step w i l msg message c nick u w' o cl : Inv w -> step cfg verify w i (EvLine l) = Ok (w', o, cl) ->
+  conns w !! i = Some c -> c_auth c = true -> c_nick c = Some nick -> users (sh w) !! nick = Some u -> um_oper (u_modes u) = false ->
+  tokenize l = inl msg -> command_of_message msg = inl (DIE message) ->
+  sh w' = sh w /\ conns w' = conns w /\ cl = [] /\ o = [(i, srv cfg (err_cantkillserver (client_name c)))].
+Proof.
+  intros I H Hc A Hn Hu Ho Ht Hcmd.
+  assert (process_line cfg verify i (sh w) c l = hr (sh w) c [(i, srv cfg (err_cantkillserver (client_name c)))]) as El.
+  { unfold process_line. rewrite Ht, Hcmd, A. cbn. rewrite (die_spec cfg i (sh w) c nick u message Hn Hu), Ho. reflexivity. }
+  unfold hr in El.
+  destruct (plain_line_step_out w i l c _ w' o cl I H Hc El eq_refl (keeps_refl _)) as [E1 [E2 [E3 E4]]]. cbn in *.
+  split; [exact E1|]. split; [rewrite E2; apply insert_id; exact Hc|]. split; [exact E4|exact E3].
+Qed.
+
 End global.
